@@ -82,6 +82,10 @@ def handleBase : Handler := fun op args =>
   | "msg_sign", [net, _, d, comp, verbose, text] => do
     let net ← Addr.findNet net
     some (showE showStr (signMessage (envFor net) (← parseInt? d) (← parseBool? comp) (← parseStr? text) (← parseBool? verbose)))
+  -- signing with a public key object (`p:x,y`): ValueError
+  | "msg_sign_pub", [net, _, _key, verbose, text] => do
+    let net ← Addr.findNet net
+    some (showE showStr (signMessageWithKey (envFor net) none true (← parseStr? text) (← parseBool? verbose)))
   | "msg_verify", [net, _, key, sig, text] => do
     let net ← Addr.findNet net
     let sig ← parseStr? sig
